@@ -6,7 +6,10 @@ Oracle, computed from the history alone by a tiny bookkeeping simulator (exists 
 last write per address), independent of the `Prog` model:
 * `seq`: every `list|liveness|master` result is exactly the set of existing servers whose last
   report / keepalive / successful probe is no older than `clock − liveness`; after every `clean|retention`
-  exactly the servers not written since `clock − retention` are gone.
+  exactly the servers not written since `clock − retention` are gone; after every `cleanins|retention` exactly the
+  instances not written (reported) since `clock − retention` are gone (inclusive bound, as coded), whatever became of
+  their servers: the final instance table (`IN`/`IU` dump lines) is exactly the bookkeeping's, and a keepalive
+  succeeds exactly when its instance and the server it names are both still stored.
 * `race`: the server refreshed during the cleanup pass is still stored afterwards, the other stale
   servers are removed.
 -/
@@ -22,7 +25,7 @@ structure Book where
 structure Sim where
   clock : Int
   books : List Book := []
-  insts : List (Nat × String) := []      -- instance id ↦ address text
+  insts : List (Nat × String × Nat × Int) := []      -- instance id ↦ (address text, ip, last write = the report that stored it)
   bad : List String := []
   done : List Nat := []
 
@@ -40,13 +43,18 @@ def Sim.touch (s : Sim) (a : String) (ip : Nat) (refresh : Bool) : Sim :=
 /-- apply a completed use case to the bookkeeping; `result` is the implementation's rendered result -/
 def Sim.apply (s : Sim) (i : Nat) (sp : USpec) (result : String) : Sim :=
   match sp with
-  | .report a _ id _ _ => if result == "ok" then { (s.touch a.render a.ip true) with insts := (id, a.render) :: s.insts.filter (·.1 != id) } else s
+  | .report a _ id _ _ => if result == "ok" then { (s.touch a.render a.ip true) with insts := (id, a.render, a.ip, s.clock) :: s.insts.filter (·.1 != id) } else s
   | .renew id ip =>
-    if result == "ok" then
-      match s.insts.lookup id with
-      | some a => s.touch a ip true
-      | none => { s with bad := s.bad ++ [s!"client{i}:renew-ok-without-instance"] }
-    else s
+    -- a keepalive succeeds exactly when its instance is still stored (not removed by the instance cleaner), was reported from
+    -- this ip, and the server it names is still stored (not removed by the server cleaner)
+    let known := match s.insts.lookup id with
+      | some (a, iip, _) => if iip == ip && s.books.any (·.addr == a) then some a else none
+      | none => none
+    match known, result == "ok" with
+    | some a, true => s.touch a ip true
+    | none, false => s
+    | some a, false => { s with bad := s.bad ++ [s!"client{i}:renew-failed-with-instance-and-server-stored:{a}:{result}"] }
+    | none, true => { s with bad := s.bad ++ [s!"client{i}:renew-ok-without-instance-or-server"] }
   | .probe p oc =>
     if (s.books.any (·.addr == p.addr.render)) && (result == "ok" || result == "retried" || result == "outofretries") then
       s.touch p.addr.render p.addr.ip (oc.isSome && result == "ok")
@@ -59,7 +67,27 @@ def Sim.apply (s : Sim) (i : Nat) (sp : USpec) (result : String) : Sim :=
       if sorted exp == sorted got then s else { s with bad := s.bad ++ [s!"client{i}:listing:expected={sorted exp}:got={sorted got}"] }
     else s
   | .clean ret => { s with books := s.books.filter fun b => !decide (b.lastWrite < s.clock - ret) }
+  -- the instance cleaner removes every instance not written since the cutoff (`Clear`'s bound is inclusive, as coded:
+  -- `Swat4.C14.clean_instances_state`), whatever became of its server
+  | .cleanins ret => { s with insts := s.insts.filter fun x => !decide (x.2.2.2 ≤ s.clock - ret) }
   | _ => s
+
+/-- (instance id, address) of every stored instance of a dump -/
+def inAddrs (dump : String) : List (Nat × String) :=
+  (dump.splitOn ";").filterMap fun line =>
+    match line.splitOn "," with
+    | ["IN", id, a] => (parseIdHex id).map fun id => (id, a)
+    | _ => none
+
+/-- (instance id, last write time) of every stored instance of a dump -/
+def inWrites (dump : String) : List (Nat × Int) :=
+  (dump.splitOn ";").filterMap fun line =>
+    match line.splitOn "," with
+    | ["IU", id, t] => match parseIdHex id, t.toInt? with | some id, some t => some (id, t) | _, _ => none
+    | _ => none
+
+def sortNat {α : Type} (xs : List (Nat × α)) : List (Nat × α) :=
+  xs.foldr (fun x acc => let (lo, hi) := acc.span (·.1 < x.1); lo ++ x :: hi) []
 
 /-- planted servers other than `keep`, split by whether they were written before the cutoff -/
 def othersBy (a : AbsState) (cutoff : Int) (stale : Bool) (keep : Option String) : List String :=
@@ -76,7 +104,8 @@ def svWrites (dump : String) : List (String × Int) :=
 /-- `cleaner <retention> <interval> <init> <script>`: the real cleaner component ran the passes of the script, the fake clock
 advancing by the interval before each (`faulttick`: the server cleaner's scan failed, that pass removes no server).
 Model: after the init items, per step: advance, `cleanServers2 retention` (unless faulted) and `cleanInstances retention`.
-Oracle on the implementation's final dump: after a healthy last pass no server last written before its cutoff remains. -/
+Oracle on the implementation's final dump: after a healthy last pass no server last written before its cutoff remains; after
+any last pass no instance last written at or before its cutoff remains. -/
 def handleCleaner (retS ivS initS script : String) (out : List String) : Verdict :=
   match retS.toInt?, ivS.toInt?, kv out "dump" with
   | some ret, some iv, some idump =>
@@ -90,9 +119,15 @@ def handleCleaner (retS ivS initS script : String) (out : List String) : Verdict
       let mdump := ";".intercalate (dumpState s.abs)
       let stale := (svWrites idump).filter fun x => decide (x.2 < s.clock - ret)
       let healthyLast := steps.getLast? == some "tick"
-      let ok := !healthyLast || stale.isEmpty
+      -- the instance cleaner runs in every pass (a failed server scan does not stop it): no instance last written at or before
+      -- the last pass's cutoff remains, and an instance entry never lacks its write time or vice versa
+      let staleIns := (inWrites idump).filter fun x => decide (x.2 ≤ s.clock - ret)
+      let insPaired := sortNat ((inAddrs idump).map fun x => (x.1, ())) == sortNat ((inWrites idump).map fun x => (x.1, ()))
+      let ok := (!healthyLast || stale.isEmpty) && staleIns.isEmpty && insPaired
       verdict (mdump == idump) ok
-        ((if ok then "" else s!"sig=stale-server-survives-pass:{stale.map (·.1)} ") ++ (if mdump == idump then "" else s!"model-dump={mdump}"))
+        ((if !healthyLast || stale.isEmpty then "" else s!"sig=stale-server-survives-pass:{stale.map (·.1)} ") ++
+         (if staleIns.isEmpty then "" else s!"sig=stale-instance-survives-pass:{staleIns.map (·.1)} ") ++ (cond insPaired "" "sig=instance-index-mismatch ") ++
+         (if mdump == idump then "" else s!"model-dump={mdump}"))
   | _, _, _ => .bad "C14 cleaner shape"
 
 def handle (args out : List String) : Verdict :=
@@ -124,7 +159,13 @@ def handle (args out : List String) : Verdict :=
           let expFinal := sim.books.map (·.addr)
           let sorted (xs : List String) := xs.foldr (fun x acc => let (lo, hi) := acc.span (· < x); lo ++ x :: hi) []
           let finalOk := sorted expFinal == sorted finalAddrs
-          (sim.bad.isEmpty && finalOk, " ".intercalate sim.bad ++ (if finalOk then "" else s!" final-servers:expected={sorted expFinal}:got={sorted finalAddrs}"))
+          -- the instance table: exactly the reported instances the instance cleaner did not remove, each with the address and
+          -- the write time of the report that stored it
+          let expIns := sortNat (sim.insts.map fun x => (x.1, x.2.1))
+          let expInsW := sortNat (sim.insts.map fun x => (x.1, x.2.2.2))
+          let insOk := expIns == sortNat (inAddrs idump) && expInsW == sortNat (inWrites idump)
+          (sim.bad.isEmpty && finalOk && insOk, " ".intercalate sim.bad ++ (if finalOk then "" else s!" final-servers:expected={sorted expFinal}:got={sorted finalAddrs}") ++
+            (if insOk then "" else s!" final-instances:expected={expIns}/{expInsW}:got={sortNat (inAddrs idump)}/{sortNat (inWrites idump)}"))
         else if op == "fault" then
           -- a storage fault hit one removal: at most one outdated server per fault may survive the pass
           let faults := ((ieff.splitOn ",").filter fun e => e.startsWith "fault").length
